@@ -2,6 +2,7 @@
 import pathlib
 
 from hypothesis import strategies as st
+from vf.gen.perm import permutations
 
 from vf.common.core import Violation, Inconclusive, check, run_hypothesis, h64
 from vf.common import be
@@ -44,7 +45,7 @@ def plan(tier):
 def attempts_strategy(draw):
     teams = draw(st.lists(GS.TEAM, min_size=2, max_size=2, unique=True))
     other = draw(GS.TEAM.filter(lambda t: t not in teams))
-    valid = [{'seat': s, 'team': teams[s % 2], 'version': 18, 'kind': 'valid'} for s in draw(st.permutations([0, 1, 2, 3]))]
+    valid = [{'seat': s, 'team': teams[s % 2], 'version': 18, 'kind': 'valid'} for s in draw(permutations([0, 1, 2, 3]))]
     n_inv = draw(st.integers(0, 6))
     inv = []
     for _ in range(n_inv):
